@@ -1,6 +1,9 @@
 /-
 C04 (continued) — refinement of `start`, `stop`, `switch` and `pause` to the abstract semantics
 (KlogV/Spec/AbstractCommands.lean).  Property theorems only (helper lemmas: KlogV/Lemmas/RefineB*.lean).
+Three statements as first written were FALSE for the model (`start_refines`, `switch_refines`: a
+resumed summary line ending in a carriage return; `pause_refines`: pathological Unicode tables); the
+counterexamples are in the comments, the corrected statements are proved.
 Hypotheses shared with `create`/`track` (see Props/C04.lean): the file does not end in a lone
 carriage return (D13), dates of records to be created are calendar dates, summary lines given on
 the command line contain no line feed, do not end in CR, and continuation lines are not blank-only
@@ -9,20 +12,22 @@ the command line contain no line feed, do not end in CR, and continuation lines 
 import KlogV.Lemmas.RefineB
 namespace KlogV.C04
 
-/-- summary lines as typed: clean, and lines after the first are not blank-only -/
-def CleanSummary (ls : List Bytes) : Prop :=
-  (∀ l ∈ ls, KlogV.CleanLine l) ∧ ∀ l ∈ ls.drop 1, okEntrySummaryCont (decodeGo l) = true
+/-- summary lines as typed: clean, and lines after the first are not blank-only
+(definition: KlogV/Lemmas/RefineB2.lean) -/
+abbrev CleanSummary (ls : List Bytes) : Prop := KlogV.CleanSummary ls
 
 /-- the record `--resume`/`--resume-nth` look at: the target record, or the fresh record about to
-be created -/
-def currentRecord (rs : List Record) (d : Date) (cfgShould : Option Int) : Record :=
-  match Spec.targetIdx rs d with
-  | some i => (rs[i]?).getD ⟨d, cfgShould, [], []⟩
-  | none => ⟨d, cfgShould, [], []⟩
+be created (definition: KlogV/Lemmas/RefineB2.lean) -/
+abbrev currentRecord (rs : List Record) (d : Date) (cfgShould : Option Int) : Record :=
+  KlogV.currentRecord rs d cfgShould
 
-/-- `start`: after a successful run the file holds the old records plus ONE open range starting
-at the time the command determined (C17), with the summary the flags select, at the end of the
-record for the date (created, with the configured should-total, at its position when absent). -/
+/-
+-- FALSE: `--resume` / `--resume-nth` take over the summary of an existing entry; if a line of that summary
+-- ends in a carriage return (its line in the file ends in CR CR LF), the new entry is written with that CR
+-- directly in front of the line ending and is read back WITHOUT it (cf. D13).
+-- file = "2000-01-01\n    1h foo\r\r\n" (the entry's summary is ["foo\r"]), now = 2000-01-01 9:00,
+-- `#eval runCmd u {} now (.start {} {resume := true}) file` = .ok "2000-01-01\n    1h foo\r\r\n    9:00 - ? foo\r\n":
+-- the new open range has the summary ["foo"], but `Spec.chosenSummary … = some ["foo\r"]`, so `Spec.Start` fails.
 theorem start_refines (u : UTab) (cfg : Config) (now : Instant) (a : AtArgs) (s : SummaryArgs)
     (file file' : Bytes) (rs : List Record) (bos : List BlockOut) (d : Date) (t : Time)
     (hp : parseDoc file = .records rs bos) (hd : atDate a.date now.date = some d)
@@ -32,8 +37,27 @@ theorem start_refines (u : UTab) (cfg : Config) (now : Instant) (a : AtArgs) (s 
     (h : runCmd u cfg now (.start a s) file = .ok file') :
     ∃ rs' bos' sm, parseDoc file' = .records rs' bos' ∧
       Spec.chosenSummary (s.text.map (·.map decodeGo)) s.resume s.resumeNth (currentRecord rs d cfg.should) (Spec.previousOf rs d) = some sm ∧
+      Spec.Start rs d cfg.should t sm rs'
+-/
+
+/-- `start` (corrected: `hrcr` — when the summary is taken over from an existing entry (`--resume`,
+`--resume-nth`), none of its lines ends in a carriage return): after a successful run the file holds
+the old records plus ONE open range starting at the time the command determined (C17), with the
+summary the flags select, at the end of the record for the date (created, with the configured
+should-total, at its position when absent). -/
+theorem start_refines (u : UTab) (cfg : Config) (now : Instant) (a : AtArgs) (s : SummaryArgs)
+    (file file' : Bytes) (rs : List Record) (bos : List BlockOut) (d : Date) (t : Time)
+    (hp : parseDoc file = .records rs bos) (hd : atDate a.date now.date = some d)
+    (ht : atTime a now cfg = .ok t) (htw : t.wf = true)
+    (hs : CleanSummary (s.text.getD [])) (hcr : file.getLast? ≠ some 13)
+    (hv : Spec.targetIdx rs d = none → d.valid = true)
+    (hrcr : s.text = none → ∀ sm, Spec.chosenSummary none s.resume s.resumeNth (currentRecord rs d cfg.should)
+      (Spec.previousOf rs d) = some sm → ∀ l ∈ sm, l.getLast? ≠ some '\r')
+    (h : runCmd u cfg now (.start a s) file = .ok file') :
+    ∃ rs' bos' sm, parseDoc file' = .records rs' bos' ∧
+      Spec.chosenSummary (s.text.map (·.map decodeGo)) s.resume s.resumeNth (currentRecord rs d cfg.should) (Spec.previousOf rs d) = some sm ∧
       Spec.Start rs d cfg.should t sm rs' :=
-  KlogV.start_refines u cfg now a s file file' rs bos d t hp hd ht htw hs hcr hv h
+  KlogV.start_refines u cfg now a s file file' rs bos d t hp hd ht htw hs hcr hv hrcr h
 
 /-- `start` is rejected when the record already has an open range, or when the summary flags
 conflict / the entry to resume does not exist. -/
@@ -47,11 +71,9 @@ theorem start_rejected (u : UTab) (cfg : Config) (now : Instant) (a : AtArgs) (s
 
 /-- the record `stop` acts on and the time relative to it: the record for the date; or — only when
 neither a date nor a time was given and there is no record for the date — the record of the day
-before, with the time shifted by 24 hours -/
-def StopTarget (rs : List Record) (a : AtArgs) (d : Date) (t : Time) (i : Nat) (t' : Time) : Prop :=
-  (Spec.targetIdx rs d = some i ∧ t' = t) ∨
-  (Spec.targetIdx rs d = none ∧ a.date.isExplicit = false ∧ a.time = none ∧
-    ∃ y, d.plusDays (-1) = some y ∧ Spec.targetIdx rs y = some i ∧ t.plus 1440 = some t')
+before, with the time shifted by 24 hours (definition: KlogV/Lemmas/RefineB2.lean) -/
+abbrev StopTarget (rs : List Record) (a : AtArgs) (d : Date) (t : Time) (i : Nat) (t' : Time) : Prop :=
+  KlogV.StopTarget rs a d t i t'
 
 /-- `stop`: the open range of the target record becomes a range ending at the given time, the
 extra summary is appended; nothing else changes. -/
@@ -75,8 +97,12 @@ theorem stop_rejected (u : UTab) (cfg : Config) (now : Instant) (a : AtArgs) (su
     ∀ f', runCmd u cfg now (.stop a summary) file ≠ .ok f' :=
   KlogV.stop_rejected u cfg now a summary file rs bos d t i r hp hd ht hi hr hrej
 
-/-- `switch`: stop at the time, then start at the same time on the same record; if either half
-is rejected nothing is written (C05.no_partial_multistep). -/
+/-
+-- FALSE: as `start_refines`: a resumed summary line ending in a carriage return loses it.
+-- file = "2000-01-01\n    8:00 - ? foo\r\r\n", now = 2000-01-01 9:00,
+-- `#eval runCmd u {} now (.switch {} {resume := true}) file` =
+--   .ok "2000-01-01\n    8:00 - 9:00 foo\r\r\n    9:00 - ? foo\r\n": the closed entry keeps ["foo\r"], the new open range
+-- has ["foo"], but `Spec.chosenSummary … r1 none = some ["foo\r"]`.
 theorem switch_refines (u : UTab) (cfg : Config) (now : Instant) (a : AtArgs) (s : SummaryArgs)
     (file file' : Bytes) (rs : List Record) (bos : List BlockOut) (d : Date) (t : Time)
     (hp : parseDoc file = .records rs bos) (hd : atDate a.date now.date = some d)
@@ -86,18 +112,38 @@ theorem switch_refines (u : UTab) (cfg : Config) (now : Instant) (a : AtArgs) (s
     ∃ rs' bos' i r r1 sm, parseDoc file' = .records rs' bos' ∧ Spec.targetIdx rs d = some i ∧ rs[i]? = some r ∧
       Spec.CloseAt r t [] r1 ∧
       Spec.chosenSummary (s.text.map (·.map decodeGo)) s.resume s.resumeNth r1 none = some sm ∧
+      Spec.Switch rs i t sm rs'
+-/
+
+/-- `switch` (corrected: `hrcr` — a summary taken over from an entry of the record has no line ending
+in a carriage return): stop at the time, then start at the same time on the same record; if either
+half is rejected nothing is written (C05.no_partial_multistep). -/
+theorem switch_refines (u : UTab) (cfg : Config) (now : Instant) (a : AtArgs) (s : SummaryArgs)
+    (file file' : Bytes) (rs : List Record) (bos : List BlockOut) (d : Date) (t : Time)
+    (hp : parseDoc file = .records rs bos) (hd : atDate a.date now.date = some d)
+    (ht : atTime a now cfg = .ok t) (htw : t.wf = true)
+    (hs : CleanSummary (s.text.getD [])) (hcr : file.getLast? ≠ some 13)
+    (hrcr : s.text = none → ∀ i r sm, Spec.targetIdx rs d = some i → rs[i]? = some r →
+      Spec.chosenSummary none s.resume s.resumeNth r none = some sm → ∀ l ∈ sm, l.getLast? ≠ some '\r')
+    (h : runCmd u cfg now (.switch a s) file = .ok file') :
+    ∃ rs' bos' i r r1 sm, parseDoc file' = .records rs' bos' ∧ Spec.targetIdx rs d = some i ∧ rs[i]? = some r ∧
+      Spec.CloseAt r t [] r1 ∧
+      Spec.chosenSummary (s.text.map (·.map decodeGo)) s.resume s.resumeNth r1 none = some sm ∧
       Spec.Switch rs i t sm rs' :=
-  KlogV.switch_refines u cfg now a s file file' rs bos d t hp hd ht htw hs hcr h
+  KlogV.switch_refines u cfg now a s file file' rs bos d t hp hd ht htw hs hcr hrcr h
 
-/-- the record `pause` acts on: today's, else yesterday's -/
-def PauseTarget (rs : List Record) (today : Date) (i : Nat) : Prop :=
-  Spec.targetIdx rs today = some i ∨
-  (Spec.targetIdx rs today = none ∧ ∃ y, today.plusDays (-1) = some y ∧ Spec.targetIdx rs y = some i)
+/-- the record `pause` acts on: today's, else yesterday's (definition: KlogV/Lemmas/RefineB2.lean) -/
+abbrev PauseTarget (rs : List Record) (today : Date) (i : Nat) : Prop := KlogV.PauseTarget rs today i
 
-/-- `pause` without `--extend`, for EVERY script of clock readings: a pause entry of exactly the
-captured whole minutes (C04.pause_invariant: the largest reading so far, never negative) is added
-to the record with the open range, with the given summary and — unless `--no-tags` — the tags of
-the open range's summary appended once; nothing else changes. -/
+/-
+-- FALSE: for a table `u` whose case folding yields a line break character, or in which the carriage return
+-- counts as a letter (both satisfy `hu`; the tables the driver dumps from Go's `unicode` package do neither),
+-- the tags appended to the pause entry break the line / lose a character:
+-- u1 := ⟨Char.isAlpha, fun _ => '\n'⟩, file = "2000-01-01\n    8:00 - ? foo #ab\n":
+-- `#eval runCmd u1 {} now (.pause none false false []) file` = .ok "2000-01-01\n    8:00 - ? foo #ab\n    -0m #\n\n\n"
+--   (pause summary ["#"], but the printed tags are "#\n\n");
+-- u2 := ⟨fun c => c.isAlpha || c == '\r', id⟩, file = "2000-01-01\n    8:00 - ? foo #ab\r\r\n":
+-- the result is "…\n    -0m #ab\r\n" (pause summary ["#ab"], but the printed tags are "#ab\r").
 theorem pause_refines (u : UTab) (cfg : Config) (now : Instant) (summary : Option (List Bytes)) (noTags : Bool) (ticks : List Int)
     (file file' : Bytes) (rs : List Record) (bos : List BlockOut)
     (hp : parseDoc file = .records rs bos) (hs : CleanSummary (summary.getD [])) (hcr : file.getLast? ≠ some 13)
@@ -107,8 +153,27 @@ theorem pause_refines (u : UTab) (cfg : Config) (now : Instant) (summary : Optio
       oe ∈ r.entries ∧ isOpen oe.val = true ∧
       Spec.PauseAppend rs i (Spec.captured ticks)
         (Spec.pauseSummary ((summary.getD []).map decodeGo)
+          (if noTags then none else some (((summaryTags u oe.summary).map (fun (t : Tag) => t.print u)).intersperse [' ']).flatten)) rs'
+-/
+
+/-- `pause` without `--extend`, for EVERY script of clock readings (corrected: `hu2` — when tags are
+appended, the case folding of `u` yields neither a line feed nor a carriage return, and the carriage
+return is not a letter): a pause entry of exactly the captured whole minutes (C04.pause_invariant:
+the largest reading so far, never negative) is added to the record with the open range, with the
+given summary and — unless `--no-tags` — the tags of the open range's summary appended once;
+nothing else changes. -/
+theorem pause_refines (u : UTab) (cfg : Config) (now : Instant) (summary : Option (List Bytes)) (noTags : Bool) (ticks : List Int)
+    (file file' : Bytes) (rs : List Record) (bos : List BlockOut)
+    (hp : parseDoc file = .records rs bos) (hs : CleanSummary (summary.getD [])) (hcr : file.getLast? ≠ some 13)
+    (hu : u.isLetter '"' = false ∧ u.isLetter '\'' = false ∧ u.isLetter ' ' = false)
+    (hu2 : noTags = false → u.isLetter '\r' = false ∧ ∀ c, u.lower c ≠ '\n' ∧ u.lower c ≠ '\r')
+    (h : runCmd u cfg now (.pause summary noTags false ticks) file = .ok file') :
+    ∃ rs' bos' i r oe, parseDoc file' = .records rs' bos' ∧ PauseTarget rs now.date i ∧ rs[i]? = some r ∧
+      oe ∈ r.entries ∧ isOpen oe.val = true ∧
+      Spec.PauseAppend rs i (Spec.captured ticks)
+        (Spec.pauseSummary ((summary.getD []).map decodeGo)
           (if noTags then none else some (((summaryTags u oe.summary).map (fun (t : Tag) => t.print u)).intersperse [' ']).flatten)) rs' :=
-  KlogV.pause_refines u cfg now summary noTags ticks file file' rs bos hp hs hcr hu h
+  KlogV.pause_refines u cfg now summary noTags ticks file file' rs bos hp hs hcr hu hu2 h
 
 /-- `pause --extend`, for every script of clock readings: the last non-positive duration entry of
 the record decreases by exactly the captured minutes. -/
